@@ -2,6 +2,8 @@
 
 package decimal
 
+import "io"
+
 // C12: parsing of decimal literals is exact-then-rounded; arbitrary input is
 // rejected with an error and a nil result, never a panic.
 
@@ -82,6 +84,14 @@ func H_C12_lit() {
 			if d != nil {
 				z = d
 			}
+		case 4:
+			// fmt.Scanner: leading blanks are skipped, the literal is consumed, what follows stays unread
+			st := &vScan{b: append(append([]byte{' '}, b...), ' ', 'x')}
+			err = z.Scan(st, 'g')
+			d, base = z, 10
+			if err == nil {
+				vAssert("C12.scan.consumed", st.pos == 1+len(b))
+			}
 		}
 	})
 	vAssert("C12.nopanic", k == 0)
@@ -94,7 +104,7 @@ func H_C12_lit() {
 	}
 	neg := sign == 2
 	if nd == 0 {
-		vAssert("C12.reject", vAnd(vOr(err != nil, !ok), vOr(d == nil, entry == 2)))
+		vAssert("C12.reject", vAnd(vOr(err != nil, !ok), vOr(d == nil, entry >= 2)))
 		return
 	}
 	if sIsZero(S) {
@@ -113,7 +123,7 @@ func H_C12_lit() {
 	}
 	X := int64(kd) - int64(frac) + E
 	if X < MinExp || X > MaxExp {
-		vAssert("C12.reject", vAnd(vOr(err != nil, !ok), vOr(d == nil, entry == 2)))
+		vAssert("C12.reject", vAnd(vOr(err != nil, !ok), vOr(d == nil, entry >= 2)))
 		vReach("end.range")
 		return
 	}
@@ -270,3 +280,32 @@ func H_C12_any() {
 	}
 	vReach("end")
 }
+
+// vScan is a minimal fmt.ScanState over a byte slice (for (*Decimal).Scan).
+type vScan struct {
+	b   []byte
+	pos int
+}
+
+func (s *vScan) ReadRune() (rune, int, error) {
+	if s.pos >= len(s.b) {
+		return 0, 0, io.EOF
+	}
+	c := s.b[s.pos]
+	s.pos++
+	return rune(c), 1, nil
+}
+func (s *vScan) UnreadRune() error {
+	if s.pos > 0 {
+		s.pos--
+	}
+	return nil
+}
+func (s *vScan) SkipSpace() {
+	for s.pos < len(s.b) && (s.b[s.pos] == ' ' || s.b[s.pos] == '\t' || s.b[s.pos] == '\n') {
+		s.pos++
+	}
+}
+func (s *vScan) Token(skip bool, f func(rune) bool) ([]byte, error) { return nil, nil }
+func (s *vScan) Width() (int, bool)                                 { return 0, false }
+func (s *vScan) Read(p []byte) (int, error)                         { return 0, io.EOF }
